@@ -4,9 +4,9 @@
    IcingaApplication::DumpModifiedAttributes (icingaapplication.cpp:129-192) open a block
        var obj = get_object(<type>, <name>)  if (obj) {  obj.modify_attribute(..) ...  obj.version = <version> }
    when the object changes and close the block of the PREVIOUS object with THAT object's version.  The start-up
-   (daemoncommand.cpp:289, configitem.cpp:648-664) first restores the state file - which carries the state attributes
-   original_attributes and version of every object - and then evaluates modified-attributes.conf; an exception inside a
-   block ends the evaluation of the whole file.
+   (daemoncommand.cpp:289, configitem.cpp:648-664) first restores the state file - which carries the state attribute
+   version of every object (original_attributes is not a state attribute) - and then evaluates modified-attributes.conf;
+   an exception inside a block ends the evaluation of the whole file.
    All objects of a population are of one type here (one field environment); names identify objects. *)
 From Icv Require Import Base.Tac Persist.PsValue Persist.PsModel.
 From Coq Require Import NArith.
@@ -61,13 +61,16 @@ Fixpoint ps_pop_replay (fe : ps_fenv) (now : Z) (blocks : list ps_block) (pop : 
               if ok then ps_pop_replay fe now t pop' else (false, pop')
   end.
 
-(* RestoreObjects, as far as this model's two state attributes go: the freshly configured object called like a saved
-   one gets that object's original_attributes and version (C14_state_roundtrip: persisted fields come back unchanged) *)
+(* RestoreObjects, as far as this model's objects go: of the attributes of ps_mobj only [version] is a state attribute
+   (configobject.ti: "[state, no_user_modify] double version"; original_attributes is NOT persisted in the state file -
+   it is rebuilt by the modify_attribute calls of modified-attributes.conf).  The freshly configured object called like
+   a saved one gets that object's version (C14_state_roundtrip: persisted fields come back unchanged). *)
+Definition ps_set_version (z : Z) (o : ps_mobj) : ps_mobj :=
+  {| ps_m_fields := ps_m_fields o; ps_m_orig := ps_m_orig o; ps_m_version := z |}.
+
 Definition ps_state_restore (saved base : ps_pop) : ps_pop :=
   map (fun b => match ps_pop_find (ps_p_name b) saved with
-                | Some s => {| ps_p_name := ps_p_name b;
-                               ps_p_obj := {| ps_m_fields := ps_m_fields (ps_p_obj b); ps_m_orig := ps_m_orig s;
-                                              ps_m_version := ps_m_version s |} |}
+                | Some s => {| ps_p_name := ps_p_name b; ps_p_obj := ps_set_version (ps_m_version s) (ps_p_obj b) |}
                 | None => b
                 end) base.
 
